@@ -105,6 +105,30 @@ def f_dedent(it, s):
     return SStr(r)
 
 
+# typing.get_origin / typing.get_args on concrete type objects (MessageData.__post_init__ type checks): exact, evaluated natively
+import typing as _typing
+
+
+def _typing_pure(fn):
+    def model(it, tp):
+        tp = it.resolve(tp)
+        try:
+            c = _lib.to_native(tp)
+        except ValueError:
+            raise Unsupported(f"typing.{fn.__name__} of a non-constant")
+        r = fn(c)
+        if isinstance(r, tuple):
+            return STuple([x if isinstance(x, SV) else (lift(x) if isinstance(x, (int, str, bytes, bool, type(None))) else SConst(x)) for x in r])
+        return NONE if r is None else SConst(r)
+
+    model.__name__ = "typing." + fn.__name__
+    return model
+
+
+function(_typing.get_origin)(_typing_pure(_typing.get_origin))
+function(_typing.get_args)(_typing_pure(_typing.get_args))
+
+
 _default_str_strip = METHODS[(SStr, "strip")]
 _default_str_encode = METHODS[(SStr, "encode")]
 
@@ -118,8 +142,26 @@ def _str_strip_proj(it, s, *a):
     return r
 
 
+def _is_decimal_term(t):
+    """t is str(n) for an int term n as built by lib.int_to_str (decimal digits with an optional leading '-': pure ASCII)"""
+    k = t.decl().kind()
+    if k == z3.Z3_OP_INT_TO_STR:
+        return True
+    if k == z3.Z3_OP_ITE:
+        return all(_is_decimal_term(c) for c in t.children()[1:])
+    if k == z3.Z3_OP_SEQ_CONCAT:
+        ch = t.children()
+        return len(ch) == 2 and z3.is_string_value(ch[0]) and ch[0].as_string() == "-" and _is_decimal_term(ch[1])
+    return False
+
+
 @method(SStr, "encode")
 def _str_encode_proj(it, s, *a, **k):
+    if s.concrete() is None and _is_decimal_term(s.t):
+        enc = (a[0].concrete() if a else (k["encoding"].concrete() if "encoding" in k else "utf-8")).lower().replace("_", "-")
+        if enc in ("utf-8", "utf8", "ascii", "latin-1", "latin1"):
+            it.ex.note("lib", "str.encode (exact on str(int): decimal digits are ASCII)")
+            return SBytes(s.t)
     r = _default_str_encode(it, s, *a, **k)
     if _on(it) and s.concrete() is None:
         enc = (a[0].concrete() if a else (k["encoding"].concrete() if "encoding" in k else "utf-8")).lower().replace("_", "-")
@@ -127,3 +169,293 @@ def _str_encode_proj(it, s, *a, **k):
             it.ex.assume(_h()(r.t) == mproj(s.t, it.ex.assume))
             it.ex.note("assumed", "UTF-8 encoding (any error handler among strict/replace/surrogateescape) keeps ASCII characters and maps every other character to bytes >= 0x80 or '?' (markup projection unchanged)")
     return r
+
+
+# =====================================================================================================================
+# C01: exact models of fixed regular expressions (opt-in: scenario option exact_regex=True)
+#
+# A compiled pattern (or a pattern literal handed to re.match) is translated to an SMT regular expression from CPython's
+# own parse tree (re._parser), for the fragment  literals, classes (literals, ranges, \d in bytes patterns, negation),
+# greedy repeats, non-capturing groups / alternation, ^ at the start and $ at the end.  Anything else is left to the
+# uninterpreted models of libx_tools.  Semantics of the methods (non-MULTILINE):
+#     p.fullmatch(s) is not None  <=>  s in L(p)
+#     p.match(s)     is not None  <=>  s in L(p) . (\n)?      if p ends with $   (Python's $ also matches before a trailing \n)
+#                                      s in L(p) . Sigma*     otherwise
+# The translation is cross-checked against `re` on all strings of length <= 4 over the pattern's alphabet by
+# props/C01.py (T2 check c01.regex_models).
+
+def _re_ok(it):
+    return bool(getattr(it.ex, "exact_regex", False))
+
+
+def _ch(c):
+    return z3.Re(z3.StringVal(chr(c)))
+
+
+def _class_to_re(items, is_bytes):
+    import re._constants as C
+    neg = False
+    parts = []
+    for op, arg in items:
+        if op is C.NEGATE:
+            neg = True
+        elif op is C.LITERAL:
+            parts.append(_ch(arg))
+        elif op is C.RANGE:
+            parts.append(z3.Range(chr(arg[0]), chr(arg[1])))
+        elif op is C.CATEGORY and arg is C.CATEGORY_DIGIT and is_bytes:
+            parts.append(z3.Range("0", "9"))
+        else:
+            raise ValueError(f"class item {op}")
+    r = parts[0] if len(parts) == 1 else z3.Union(*parts)
+    if neg:
+        top = z3.Range(chr(0), chr(255)) if is_bytes else z3.AllChar(z3.ReSort(_S))
+        r = z3.Intersect(top, z3.Complement(r))
+    return r
+
+
+def _seq_to_re(seq, is_bytes):
+    import re._constants as C
+    parts = []
+    for op, arg in seq:
+        if op is C.LITERAL:
+            parts.append(_ch(arg))
+        elif op is C.IN:
+            parts.append(_class_to_re(arg, is_bytes))
+        elif op is C.MAX_REPEAT:
+            lo, hi, sub = arg
+            inner = _seq_to_re(sub, is_bytes)
+            if hi is C.MAXREPEAT:
+                r = z3.Star(inner) if lo == 0 else (z3.Plus(inner) if lo == 1 else z3.Concat(*([inner] * lo + [z3.Star(inner)])))
+            else:
+                r = z3.Loop(inner, lo, hi)
+            parts.append(r)
+        elif op is C.SUBPATTERN:
+            parts.append(_seq_to_re(arg[3], is_bytes))
+        elif op is C.BRANCH:
+            alts = [_seq_to_re(a, is_bytes) for a in arg[1]]
+            parts.append(alts[0] if len(alts) == 1 else z3.Union(*alts))
+        else:
+            raise ValueError(f"regex op {op}")
+    if not parts:
+        return z3.Re(z3.StringVal(""))
+    return parts[0] if len(parts) == 1 else z3.Concat(*parts)
+
+
+_RE_CACHE = {}
+
+
+def regex_language(pattern, flags=0):
+    """(z3 regex of L(p), anchored_at_end) or None if outside the fragment"""
+    key = (pattern, int(flags))
+    if key in _RE_CACHE:
+        return _RE_CACHE[key]
+    out = None
+    try:
+        import re._parser as P
+        import re._constants as C
+        if int(flags) & ~(re.UNICODE.value if isinstance(pattern, str) else 0):
+            raise ValueError("flags")
+        data = list(P.parse(pattern, 0).data)
+        if data and data[0] == (C.AT, C.AT_BEGINNING):
+            data = data[1:]
+        end = False
+        if data and data[-1] == (C.AT, C.AT_END):
+            data, end = data[:-1], True
+        out = (_seq_to_re(data, isinstance(pattern, bytes)), end)
+    except Exception:
+        out = None
+    _RE_CACHE[key] = out
+    return out
+
+
+def _exact_match(kind, pattern, flags):
+    lang = regex_language(pattern, flags)
+    if lang is None:
+        return None
+    R, end = lang
+
+    def model(it, s, *a, **k):
+        s = it.resolve(s)
+        if a or k:
+            raise Unsupported("re match with pos/endpos")
+        if not isinstance(s, (SStr, SBytes)):
+            it.raise_(TypeError, "expected string or bytes-like object")
+        if isinstance(s, SBytes) != isinstance(pattern, bytes):
+            it.raise_(TypeError, "cannot use a string pattern on a bytes-like object")
+        if kind == "fullmatch":
+            L = R
+        elif end:
+            L = z3.Concat(R, z3.Option(z3.Re(z3.StringVal("\n"))))
+        else:
+            L = z3.Concat(R, z3.Full(z3.ReSort(_S)))
+        it.ex.note("lib", f"re {kind} {pattern!r} (exact SMT regex)")
+        if it.branch(SBool(z3.InRe(s.t, L))):
+            return SObj(re.Match, {"re": SConst(pattern), "string": s})
+        return NONE
+
+    model.__name__ = f"re.{kind}[{pattern!r}]"
+    return model
+
+
+_prev_lookup_http1 = _lib.lookup_function
+
+
+def _lookup_function_http1(o):
+    r = _prev_lookup_http1(o)
+    if r is None and isinstance(o, _types.BuiltinMethodType) and isinstance(getattr(o, "__self__", None), re.Pattern) and o.__name__ in ("match", "fullmatch"):
+        p = o.__self__
+        exact = _exact_match(o.__name__, p.pattern, p.flags & ~re.UNICODE.value)
+        if exact is not None:
+            def model(it, *a, **k):
+                if not _re_ok(it):
+                    if not _FALLBACK:
+                        _late_bind_fallback()
+                    nxt = _FALLBACK.get(o.__name__)
+                    if nxt is None:
+                        raise Unsupported(f"re.Pattern.{o.__name__} (no model)")
+                    return nxt(it, p, *a, **k)
+                return exact(it, *a, **k)
+
+            model.__name__ = exact.__name__
+            return model
+    return r
+
+
+_FALLBACK = {}
+_lib.lookup_function = _lookup_function_http1
+
+
+def _late_bind_fallback():
+    """libx_tools (loaded after this module) owns the uninterpreted Pattern models used when exact_regex is off"""
+    try:
+        from . import libx_tools as T
+        _FALLBACK.update(T.PATTERN_METHODS)
+    except Exception:
+        pass
+
+
+@function(re.match)
+def f_re_match(it, pattern, string, flags=None):
+    _late_bind_fallback()
+    pattern = it.resolve(pattern)
+    pc = pattern.concrete() if isinstance(pattern, (SStr, SBytes)) else None
+    if pc is None or flags is not None or not _re_ok(it):
+        raise Unsupported("call to re:match outside the inline roots (needs a library contract)")
+    exact = _exact_match("match", pc, 0)
+    if exact is None:
+        raise Unsupported(f"re.match pattern {pc!r} outside the exact fragment")
+    return exact(it, string)
+
+
+# ---- mini regex terms with a case-insensitive image, for facts about lower() and the one re.sub of parse_transfer_encoding
+
+def rx_lit(text):
+    return ("lit", text)
+
+
+def rx_cat(*xs):
+    return ("cat", list(xs))
+
+
+def rx_ows():
+    return ("ows",)
+
+
+def rx_to_re(x, ci=False):
+    k = x[0]
+    if k == "lit":
+        if not ci:
+            return z3.Re(z3.StringVal(x[1]))
+        parts = [z3.Union(z3.Re(z3.StringVal(c.lower())), z3.Re(z3.StringVal(c.upper()))) if c.lower() != c.upper() else z3.Re(z3.StringVal(c)) for c in x[1]]
+        return parts[0] if len(parts) == 1 else z3.Concat(*parts)
+    if k == "cat":
+        parts = [rx_to_re(y, ci) for y in x[1]]
+        return parts[0] if len(parts) == 1 else z3.Concat(*parts)
+    if k == "ows":
+        return z3.Star(z3.Union(z3.Re(z3.StringVal(" ")), z3.Re(z3.StringVal("\t"))))
+    raise ValueError(k)
+
+
+def te_preimage(lit):
+    """all t with re.sub(r"[\\t ]*,[\\t ]*", ",", t) == lit, for a literal without blanks: blanks may surround each comma"""
+    parts = lit.split(",")
+    xs = []
+    for i, p in enumerate(parts):
+        if i:
+            xs += [rx_ows(), rx_lit(","), rx_ows()]
+        xs.append(rx_lit(p))
+    return rx_cat(*xs)
+
+
+_ASCII = z3.Star(z3.Range(chr(0), chr(127)))
+
+
+def _lower_facts(it, s, r):
+    lits = getattr(it.ex, "lower_literals", None)
+    if not lits:
+        return
+    guard = z3.InRe(s.t, _ASCII) if isinstance(s, SStr) else z3.BoolVal(True)
+    for x in lits:
+        rx = rx_lit(x) if isinstance(x, str) else x
+        it.ex.assume(z3.Implies(guard, z3.InRe(r.t, rx_to_re(rx)) == z3.InRe(s.t, rx_to_re(rx, ci=True))))
+    it.ex.assume(z3.InRe(s.t, _ASCII) == z3.InRe(r.t, _ASCII) if isinstance(s, SBytes) else z3.Implies(z3.InRe(s.t, _ASCII), z3.InRe(r.t, _ASCII)))
+    it.ex.note("assumed", "lower() of an ASCII string maps A-Z to a-z and nothing else: for the listed lower-case patterns R, lower(s) in R <=> s in case-insensitive R")
+
+
+for _T2 in (SStr, SBytes):
+    def _mk(T):
+        default = METHODS[(T, "lower")]
+
+        def _lower_with_facts(it, s):
+            r = default(it, s)
+            if s.concrete() is None:
+                _lower_facts(it, s, r)
+            return r
+
+        METHODS[(T, "lower")] = _lower_with_facts
+
+        def _isascii(it, s):
+            c = s.concrete()
+            if c is not None:
+                return lift(c.isascii())
+            return SBool(z3.InRe(s.t, _ASCII))
+
+        if (T, "isascii") not in METHODS:
+            METHODS[(T, "isascii")] = _isascii
+
+    _mk(_T2)
+
+
+_default_bytes_decode = METHODS[(SBytes, "decode")]
+
+
+@method(SBytes, "decode")
+def _decode_ascii_fact(it, s, *a, **k):
+    r = _default_bytes_decode(it, s, *a, **k)
+    if getattr(it.ex, "exact_regex", False) and s.concrete() is None and isinstance(r, SStr):
+        enc = (a[0].concrete() if a else (k["encoding"].concrete() if "encoding" in k else "utf-8")).lower().replace("_", "-")
+        if enc in ("utf-8", "utf8"):
+            it.ex.assume(z3.InRe(r.t, _ASCII) == z3.InRe(s.t, _ASCII))
+            it.ex.note("assumed", "UTF-8 decoding (strict / surrogateescape / replace): the result is pure ASCII iff the input is")
+    return r
+
+
+@function(re.sub)
+def f_re_sub(it, pattern, repl, string, *a, **k):
+    pattern, repl, string = it.resolve(pattern), it.resolve(repl), it.resolve(string)
+    pc = pattern.concrete() if isinstance(pattern, (SStr, SBytes)) else None
+    rc = repl.concrete() if isinstance(repl, (SStr, SBytes)) else None
+    lits = getattr(it.ex, "resub_literals", None)
+    if a or k or pc != r"[\t ]*,[\t ]*" or rc != "," or not isinstance(string, SStr):
+        raise Unsupported("call to re:sub outside the inline roots (needs a library contract)")
+    c = string.concrete()
+    if c is not None:
+        return lift(re.sub(pc, rc, c))
+    r = uf("re_sub_ows_comma", _S, _S)(string.t)
+    for L in lits or ():
+        it.ex.assume((r == z3.StringVal(L)) == z3.InRe(string.t, rx_to_re(te_preimage(L))))
+    it.ex.assume(z3.Implies(z3.InRe(string.t, _ASCII), z3.InRe(r, _ASCII)))
+    it.ex.note("lib", "re.sub('[\\t ]*,[\\t ]*', ',', s) (uninterpreted + exact preimages of the listed literals)")
+    it.ex.note("assumed", "re.sub('[\\t ]*,[\\t ]*', ',', s) == L  <=>  s is L with optional blanks around each comma (for blank-free literals L)")
+    return SStr(r)
